@@ -281,6 +281,92 @@ theorem round_reestablishes_consistency (R : Rnd κ η) (last ridx : Nat) (l r r
   rw [e1, e, e2] at e3
   exact Option.some.inj e3
 
+/-! ### stale batch reads: success still means consistent -/
+
+/-- an object on both sides that the round does not upsert already agrees with the primary -/
+theorem unchanged_objects_agree (R : Rnd κ η) (last ridx : Nat) (l r : List (Item κ η))
+    (h : RoundOK R (effLast last ridx) l r) (y : Item κ η) (hy : y ∈ l) (x : Item κ η) (hx : x ∈ r)
+    (e : y.id = x.id) (hs : R.cfg.skip x.id = false) (hn : R.noRepl x.id = false)
+    (hxu : x ∉ roundUps R last ridx l r) : y.val = x.val := by
+  have hu := mem_ups R.cfg h.law (effLast last ridx) _ _ (sortBy_sorted R.cfg h.law l h.fl.unique)
+    (sortBy_sorted R.cfg h.law r h.fr.unique) x.id
+  simp only [mem_sortBy] at hu
+  have hku : x.id ∉ (diff R.cfg (effLast last ridx) (sortBy R.cfg.lt l) (sortBy R.cfg.lt r)).2 :=
+    fun hku => hxu ((mem_roundUps R last ridx l r x).mpr ⟨hx, hn, hku⟩)
+  by_cases hm : x.mod ≤ effLast last ridx
+  · exact h.cons y hy x hx e hm
+  · apply h.hash y hy x hx e
+    cases hsame : R.cfg.same x.hash y.hash with
+    | true => rfl
+    | false => exact absurd (hu.mpr ⟨hs, x, hx, rfl, Or.inr ⟨y, hy, e, by omega, hsame⟩⟩) hku
+
+/-- `round_reestablishes_consistency` under stale batch reads. The batch read may return, for any
+    upserted object, an OLDER version (same id, lower ModifyIndex) or nothing; if the guard as coded
+    (`ensureRemoteConsistent`) does not fire, every object the secondary then holds under a key
+    the primary listed agrees with the listed version — which is what the next, incremental round
+    (last = the returned index) relies on. `hmiss` is the shape of a lagging server: an object it
+    does not return is one it has never seen (the list shows it as just created), or one the
+    secondary does not hold either (then the next round upserts it whatever the index). -/
+theorem stale_round_reestablishes_consistency (R : Rnd κ η) (ov : List (κ × Option (Item κ η)))
+    (cre : κ → Nat) (last ridx : Nat) (l r : List (Item κ η))
+    (h : RoundOK R (effLast last ridx) l r)
+    (hovid : ∀ x f, fetched ov x = some f → f.id = x.id)
+    (hov : ∀ x ∈ r, ∀ f, fetched ov x = some f → f = x ∨ f.mod < x.mod)
+    (hovh : ∀ x ∈ r, ∀ f, fetched ov x = some f → R.cfg.same f.hash x.hash = true → f.val = x.val)
+    (hmiss : ∀ x ∈ roundUps R last ridx l r, fetched ov x = none →
+               x.mod = cre x.id ∨ ¬ ∃ y ∈ l, y.id = x.id)
+    (hnd : staleDetected R true ov cre last ridx l r = false) :
+    roundRetStale R true ov cre last ridx l r = some ridx ∧
+    ∀ y ∈ roundFinalStale R true ov cre last ridx l r, ∀ x ∈ r, y.id = x.id →
+      R.cfg.skip y.id = false → R.noRepl y.id = false → y.val = x.val := by
+  refine ⟨by simp [roundRetStale, hnd], ?_⟩
+  rw [roundFinalStale_eq R true ov cre last ridx l r hnd]
+  have hP := roundUps_pairwise R h.law last ridx l r h.fl h.fr
+  have hU := mem_roundUps R last ridx l r
+  have hP' : (roundUpsStale R ov last ridx l r).Pairwise fun a b => R.fold a.id ≠ R.fold b.id := by
+    unfold roundUpsStale
+    refine List.Pairwise.filterMap _ ?_ hP
+    intro a a' hne b hb b' hb'
+    rw [hovid a b hb, hovid a' b' hb']
+    exact hne
+  have hg : ∀ x ∈ roundUps R last ridx l r, guardBad R.cfg ov cre x = false := by
+    have := hnd
+    simp only [staleDetected, Bool.true_and, List.any_eq_false] at this
+    intro x hx
+    cases hgb : guardBad R.cfg ov cre x with
+    | false => rfl
+    | true => exact absurd hgb (this x hx)
+  intro y hy x hx e hs hn
+  have hsx : R.cfg.skip x.id = false := by rw [← e]; exact hs
+  have hnx : R.noRepl x.id = false := by rw [← e]; exact hn
+  rcases (mem_afterWrites _ _ _ _ hP' y).mp hy with ⟨hyl, _, hnu⟩ | hyu
+  · by_cases hxu : x ∈ roundUps R last ridx l r
+    · cases hf : fetched ov x with
+      | none =>
+        rcases hmiss x hxu hf with hc | hno
+        · have := hg x hxu
+          simp [guardBad, hf, hc] at this
+        · exact absurd ⟨y, hyl, e⟩ hno
+      | some f =>
+        have hfu : f ∈ roundUpsStale R ov last ridx l r := by
+          unfold roundUpsStale; exact List.mem_filterMap.mpr ⟨x, hxu, hf⟩
+        exact absurd (by rw [e, hovid x f hf]) (hnu f hfu)
+    · exact unchanged_objects_agree R last ridx l r h y hyl x hx e hsx hnx hxu
+  · unfold roundUpsStale at hyu
+    obtain ⟨x0, hx0, hf⟩ := List.mem_filterMap.mp hyu
+    have hx0r := ((hU x0).mp hx0).1
+    have hid : y.id = x0.id := hovid x0 y hf
+    have hxx : x0 = x := h.fr.inj x0 hx0r x hx (by rw [← hid, e]) (by rw [← hid]; exact hs)
+    subst hxx
+    rcases hov x0 hx0r y hf with heq | hlt
+    · rw [heq]
+    · apply hovh x0 hx0r y hf
+      have := hg x0 hx0
+      simp only [guardBad, hf, Bool.and_eq_false_imp, Bool.not_eq_true', decide_eq_false_iff_not] at this
+      cases hsame : R.cfg.same y.hash x0.hash with
+      | true => rfl
+      | false => exact absurd hlt (this (by simp [hsame]))
+
 /-! ### the two instances used by consul -/
 
 theorem aclCfg_lawful : Lawful aclCfg := by
@@ -318,6 +404,41 @@ theorem aclRnd_cls (a b : Bytes) (e : aclRnd.fold a = aclRnd.fold b) :
 
 theorem aclRnd_batches_positive : 0 < aclRnd.delBatch ∧ 0 < aclRnd.upsLimit ∧
     0 < cfgRnd.delBatch ∧ 0 < cfgRnd.upsLimit := by decide
+
+/-! ### why the stale-read guard matters -/
+
+/-- The guard is what makes that true. Secondary holds policy [1] with content 1; the primary
+    modified it at index 8 (content 2, created at 3); the batch read is answered by a lagging
+    server with the version of index 5 (content 1). As coded the round fails (and is retried).
+    The variant that skips the guard on a full sync (`last = 0`; seeded change C19-3) — and the
+    token replicator, which has no guard at all — reports success with index 8 while the secondary
+    keeps content 1: the next round (last = 8) skips the object, the divergence is permanent. -/
+def exStaleL : List (Item Bytes Bytes) := [⟨[1], 0, [5], 1, 1⟩]
+def exStaleR : List (Item Bytes Bytes) := [⟨[1], 8, [6], 2, 1⟩]
+def exStaleOv : List (Bytes × Option (Item Bytes Bytes)) := [([1], some ⟨[1], 5, [5], 1, 1⟩)]
+
+theorem stale_guard_skipped_counterexample :
+    RoundOK aclRnd (effLast 0 8) exStaleL exStaleR ∧
+    roundRetStale aclRnd true exStaleOv (fun _ => 3) 0 8 exStaleL exStaleR = none ∧
+    roundRetStale aclRnd (decide (0 < effLast 0 8)) exStaleOv (fun _ => 3) 0 8 exStaleL exStaleR = some 8 ∧
+    valOf (roundFinalStale aclRnd (decide (0 < effLast 0 8)) exStaleOv (fun _ => 3) 0 8 exStaleL exStaleR) [1] = some 1 ∧
+    valOf exStaleR [1] = some 2 := by
+  have hu : roundUps aclRnd 0 8 exStaleL exStaleR = exStaleR := by
+    simp [roundUps, exStaleL, exStaleR, sortBy, insertBy, diff, effLast, aclRnd, aclCfg]
+  have hd : roundDels aclRnd 0 8 exStaleL exStaleR = [] := by
+    simp [roundDels, exStaleL, exStaleR, sortBy, insertBy, diff, effLast, aclRnd, aclCfg]
+  have h1 : staleDetected aclRnd true exStaleOv (fun _ => 3) 0 8 exStaleL exStaleR = true := by
+    unfold staleDetected; rw [hu]; decide
+  have h2 : staleDetected aclRnd (decide (0 < effLast 0 8)) exStaleOv (fun _ => 3) 0 8 exStaleL exStaleR = false := by
+    unfold staleDetected; simp [effLast]
+  refine ⟨⟨aclCfg_lawful, by unfold FoldUnique; decide, by unfold FoldUnique; decide,
+    fun a _ b _ e => aclRnd_cls a.id b.id e, by decide, by decide⟩, ?_, ?_, ?_, by decide⟩
+  · simp [roundRetStale, h1]
+  · simp [roundRetStale, h2]
+  · rw [roundFinalStale_eq _ _ _ _ _ _ _ _ h2]
+    unfold roundUpsStale
+    rw [hd, hu]
+    decide
 
 /-! ### why the order of the writes matters: a rename that only changes the letter case
 
